@@ -158,3 +158,7 @@ Fixpoint ctl (c : ctx) (x : stm) : bool :=
   | SWith b => ctl (plain c) b
   end.
 Definition ctl_prog (prog : list stm) : bool := forallb (ctl top_ctx) prog.
+
+(* ES5 11.8-11.14, 12.6.3: the NoIn productions admit no `in` operator outside brackets and the
+   middle operand of ?: *)
+Definition noin_s (ops : list Z) : bool := negb (existsb (Z.eqb 2) ops).
